@@ -1,7 +1,10 @@
-"""C17 fingerprints: theorems about the Coq model (coq/model/Fingerprint.v, PyHash.v), exact correspondence of the
-CPython hash model with the running interpreter and of every modelled function with chython on corpus / hand-made /
-generated / malformed inputs, and a model-independent search (brute-force path enumerator, neighbourhood hasher,
-renumbering and insertion-order invariance, bit-range and count-cap laws) on the real code."""
+"""C17 fingerprints: theorems about the Coq model (coq/model/Fingerprint.v, PyHash.v); exact correspondence, evaluated
+by vm_compute, of the CPython hash model with the running interpreter and of every modelled function with chython
+(exhaustive: every labelled graph with 1..4 atoms x every pair of radii in -1..5; corpus / hand-made / generated molecules
+x parameter grid incl. malformed parameters; the folding code of the real *_bit_set methods on stub hash sets with
+boundary values); a directed search on the disagreeing inputs when a correspondence breaks; and a model-independent
+search (brute-force path enumerator, fragment counter, recursive neighbourhood hasher, window arithmetic, renumbering
+and insertion-order invariance, indicator vectors, SMILES dictionaries) on the real code."""
 import concurrent.futures as cf
 import itertools
 import random
@@ -989,7 +992,8 @@ def run(ck):
                        'molecules satisfy Graph.wf_mol (checked on every correspondence molecule); KeyError paths for dangling neighbours and CGR containers '
                        '(FingerprintsCGR._atom_identifiers) are not modelled']
     ck.extra['rule'] = ('PyHash: boundary ints around 0, -1, 2^61-1, 2^63, 2^64 and their pairs, then random ints/bools/nested tuples (depth <= 3, length <= 9) and flat int '
-                        'tuples; every case is non-trivial. Folding: the real linear_bit_set / morgan_bit_set on stub hash sets (boundary values 0, -1, +-2^63, +-2^62, '
+                        'tuples; every case is non-trivial. Exhaustive: every labelled graph on 1..4 atoms (C N O S, single bonds) x radii -1..5 (quick: a seeded third '
+                        'of the grid for 4 atoms). Folding: the real linear_bit_set / morgan_bit_set on stub hash sets (boundary values 0, -1, +-2^63, +-2^62, '
                         'alternating bit patterns, random 64-bit values) x 57 lengths (2^0..2^33, 2^40, 2^48, non powers of two, <= 0) x active bits -1..8. '
                         'Fingerprints: empty molecule, hand-made molecules, lipophilicity.csv sample (<= 30 atoms, some renumbered / '
                         'insertion-order shuffled), random labelled graphs of 1-7 atoms built through add_atom/add_bond with sparse numbers, charges, isotopes, radicals; '
